@@ -56,7 +56,7 @@ ASSUMPTIONS = [
     "(n+8)*2^-23 relative (float32 summation order), exact for auto_po2 "
     "unless within the tie slack",
 ]
-BUDGET_S = {"quick": 60, "thorough": 800}
+BUDGET_S = {"quick": 40, "thorough": 800}
 REQUIRED_LABELS = {
     t: ["binary", "ternary", "alpha:none", "alpha:const", "alpha:auto",
         "alpha:auto_po2", "use_01", "rank1", "rank2", "rank3", "rank4",
@@ -444,7 +444,20 @@ def run(ctx):
     for sc, sig, d in oracle(ctx, case):
       ctx.fail(sc, sig, case, d)
   n = (24000 if ctx.quick else 160000) // ctx.n + 1
-  core.hyp_run(ctx, G.c04_case(), lambda c: oracle(ctx, c), n, name="c04")
+  # chunks: the soft budget is checked between Hypothesis runs, so a slow
+  # machine ends the search early (recorded as inconclusive tail) instead of
+  # generating examples that are no longer evaluated
+  chunk = 250 if ctx.quick else 2000
+  done, i = 0, 0
+  while done < n:
+    if ctx.time_left() <= 0:
+      ctx.labels["inconclusive_time"] += 1
+      break
+    m = min(chunk, n - done)
+    core.hyp_run(ctx, G.c04_case(), lambda c: oracle(ctx, c), m, name="c04_%d" % i)
+    done += m
+    i += 1
+  ctx.info["hyp_cases_requested"] = done
 
 
 def replay(ctx, case):
